@@ -1,5 +1,6 @@
 import MsiModel.Summary
 import MsiProofs.Lemmas.PropSetCodec
+import MsiProofs.Lemmas.AsciiSavable
 /-
 C10 — summary information survives saving, in every code page.
 Here: the property-set writer is well-formed for every property set and every code page
@@ -194,5 +195,9 @@ theorem demo_wf : WF demo where
     decide
 
 example : ∃ bytes, demo.write = .ok bytes ∧ PropSet.read bytes = .ok demo := propset_roundtrip demo demo_wf
+
+
+/-- the codec hypothesis of the round trip is a theorem for ASCII strings under every code page -/
+def valOk_ascii := @MsiProofs.AsciiSavable.valOk_ascii
 
 end MsiProofs.C10
